@@ -96,25 +96,29 @@ type thread struct {
 
 // Exec is one controlled execution.
 type Exec struct {
-	opt      Options
-	threads  []*thread
-	running  *thread
-	points   []Point
-	pos      int // index of next choice
-	events   []Event
-	steps    int
-	stepCap  bool
-	diverged string
-	aborting bool
-	quiesced chan struct{}
-	world    *world
-	clock    time.Time
-	uuidCtr  uint64
-	ticks    int64
-	chans    map[unsafe.Pointer]*mchan
-	atomics  map[unsafe.Pointer]*vclock
-	races    *raceState
-	mu       sync.Mutex // protects nothing under the baton; used by the watchdog only
+	opt        Options
+	threads    []*thread
+	running    *thread
+	points     []Point
+	pos        int // index of next choice
+	events     []Event
+	steps      int
+	stepCap    bool
+	diverged   string
+	aborting   bool
+	quiesced   chan struct{}
+	world      *world
+	clock      time.Time
+	uuidCtr    uint64
+	ticks      int64
+	inTimers   bool
+	timers     []*vtimer
+	timerSeq   int
+	ticksFired int
+	chans      map[unsafe.Pointer]*mchan
+	atomics    map[unsafe.Pointer]*vclock
+	races      *raceState
+	mu         sync.Mutex // protects nothing under the baton; used by the watchdog only
 }
 
 var cur *Exec
@@ -153,6 +157,7 @@ func Run(opt Options, body func(), atQuiescence func(e *Exec)) *Result {
 	}
 	cur = e
 	defer func() { cur = nil }()
+	ResetRand()
 	t0 := e.newThread("harness", nil)
 	e.running = t0
 	t0.started = true
@@ -315,13 +320,20 @@ func (e *Exec) enabledList() []*thread {
 		out = append(out, r)
 	}
 	for _, t := range e.threads {
-		if t == r || t.finished || t.wantQuiet {
-			continue
+		if (t == r && r.blocked == nil) || t.finished || t.wantQuiet {
+			continue // (a running thread that has just blocked is judged by its predicate like the others: a timer may satisfy it)
 		}
 		if t.blocked != nil && !t.blocked() {
 			continue
 		}
 		out = append(out, t)
+	}
+	if len(out) == 0 && !e.inTimers && e.fireDueTimer() {
+		// nothing can run: logical time jumped to the earliest pending timer
+		e.inTimers = true
+		out = e.enabledList()
+		e.inTimers = false
+		return out
 	}
 	if len(out) == 0 {
 		// quiescence-waiters become enabled when nothing else is
